@@ -190,7 +190,7 @@ def _cached_names(entries):
 
 
 DYN_ACTIONS = [("eval", {"A": 1}), ("eval", {"A": 2}), ("eval", {"A": 1, "ZZ": 1}), ("add_effect",), ("disable_effects",), ("enable_effects",),
-               ("set_cache",), ("eval_user", {"A": 1}), ("eval_user", {"A": 2})]
+               ("set_cache",), ("eval_user", {"A": 1}), ("eval_user", {"A": 2}), ("derive",), ("add_effect_der",), ("eval_der", {"A": 3}), ("eval_der", {"A": 1})]
 
 
 def run_dynamic(hist):
@@ -219,6 +219,12 @@ def run_dynamic(hist):
 
     user = dataset(ubody)
     effects = ["e0"]
+    der = None
+    der_effects = None
+
+    def late_der(v):
+        log.append(("effect", "late_der", v))
+
     enabled = True
     memo_d, memo_u = set(), set()
     for i, act in enumerate(hist):
@@ -234,8 +240,39 @@ def run_dynamic(hist):
         elif act[0] == "enable_effects":
             d.enable_effects()
             enabled = True
+        elif act[0] == "derive":
+            if der is not None:
+                return None, False
+            # a derivative shares cache and overloads, but effects attached later belong to one of the two
+            der = d.with_options({"ZZ": 7})
+            der_effects = list(effects)
+        elif act[0] == "add_effect_der":
+            if der is None or "late_der" in der_effects:
+                return None, False
+            der.add_effects(late_der)
+            der_effects.append("late_der")
+        elif act[0] == "eval_der":
+            if der is None:
+                return None, False
+            o = dict(act[1])
+            a = o["A"]
+            got = observe(None, lambda: der.evaluate(copy.deepcopy(o)))
+            if not got.ok or got.value != ("d", a):
+                return (i, f"derivative value {got!r}"), True
+            need = a not in memo_d
+            nb = sum(1 for e in log if e[:2] == ("body", "d"))
+            if nb != (1 if need else 0):
+                return (i, f"body of d ran {nb}x through the derivative, expected {1 if need else 0}; log={log}"), True
+            if need:
+                memo_d.add(a)
+            exp_eff = [(n, ("d", a)) for n in der_effects] if need else []
+            got_eff = [(e[1], e[2]) for e in log if e[0] == "effect"]
+            if got_eff != exp_eff:
+                return (i, f"effects of the derivative ran {got_eff}, expected {exp_eff}"), True
         elif act[0] == "set_cache":
             d.set_cache(MemoryCache())
+            if der is not None:
+                return None, False  # the derivative keeps the old cache: two memo sets, not modelled
             memo_d = set()
         else:
             o = dict(act[1])
